@@ -46,6 +46,8 @@ FIXED = [
  ("C11", "fix: stop and volgende in the condition of a loop belong to the enclosing loop", "directed:bytecode-residue:residue:heights-differ-at-join", "`[1, zolang als i > 2 { stop } anders { ja } { i += 1; i }, 3]` came out as [3, null, 3]: a stop / volgende in the condition of a loop left that loop with its previous value still on the stack (first noticed by the author of seeded change C11-b on the clean tree, then reproduced by C11's all-paths height check)"),
  ("C05", "fix: the garbage collector walks nested arrays without recursion", "binary-file:long-run:nest-1M-then-call:exit:None:signal:Some(6)", "`stel a = [1.5]; zolang i < 1000000 { a = [a]; i += 1 }; f()`: GC::mark (and GC::untrace for a result) recursed once per nesting level; the first function return after building the chain overflowed the native stack and the process aborted. Motivated a seeded change (C03-e: 'cap the depth of mark'); reproduced by C05's long-running directed cases on the tree before the fix (abort:stack-overflow in process, SIGABRT of the binary)"),
  ("C05", "fix: an `anders als` chain counts towards the nesting limit", "directed:else-if-chain-50k:abort:stack-overflow", "`als nee { 1 }` followed by 50 000 times ` anders als nee { 2 }` (a 1 MB file): the chain nests to the right, one level per link, and was the one form of nesting the limit of 256 levels did not count; parser / compiler / tree destructor recursed until the native stack overflowed and the process was aborted. Surfaced when the AddressSanitizer pass of C01 overflowed the harness's own tree conversion on a 4 097-arm chain; then reproduced on the real binary and by C05's new directed cases on the tree before the fix"),
+ ("C05", "fix: the lexer skips whitespace and comments in a loop instead of by recursion", "binary-dev-file:newlines-300k:abort:stack-overflow", "a file of 30 000 or more consecutive blanks (or as many empty / comment lines) in front of `1`: Tokenizer::next called itself once per skipped character and per comment; in a build without optimisation (the dev profile, what `cargo run` gives) nothing turns that into a loop, the native stack overflowed and the process was aborted. Reported by the author of seeded change C05-i as seen on the clean tree; the harness's own debug flavour (opt-level 1) had hidden it, so C05 now also runs the shipped binary built in the dev profile; reproduced by its new directed cases on the tree before the fix"),
+ ("C05", "fix: the number of calls in progress is limited like the stack", "directed:endless-recursion:no-slots:abort:alloc", "`functie f() { f() } f()`: a function without parameters and locals takes no stack slot, so the `stapel is vol` check never fired; the list of call frames grew until an allocation failed (abort after 2-3 s under a 4 GiB cap, the OOM killer otherwise). Reported by the author of seeded change C05-i as seen on the clean tree; the in-process workers had hidden it behind their instruction budget. Reproduced by C05's new directed cases (run without that budget, and through the binary) on the tree before the fix"),
  ("C11", "fix: stop and volgende discard the operands of half-evaluated expressions", "residue:loop-head-height:x = 1 + als i % 2 == 0 { volgende } anders { 2 }", "stop / volgende from inside a half-evaluated expression left the pending operands on the stack: one or more slots of residue per early exit"),
 ]
 
